@@ -232,6 +232,9 @@ class EvalScn:
             if not sh:
                 continue
             nm = (c.get("rules") or [{}] * (k + 1))[k].get("hdr", {}).get("name")
+            if sh.get("wk") is False:
+                issues.append({"aspect": "driver", "kind": "impl-vs-model", "method": c.get("mode"),
+                               "detail": "rule %d (%s): the environment or a literal of the generated case is not well kinded: the end-to-end theorem's hypotheses are not met" % (k, nm)})
             if sh.get("wf") is not True:
                 issues.append({"aspect": "driver", "kind": "impl-vs-model", "method": c.get("mode"),
                                "detail": "rule %d (%s): generated reference tree is not well-formed" % (k, nm)})
